@@ -2,8 +2,8 @@
    This file only restates the property theorems; proofs are in srv/SrvBasics.v, srv/SrvC07.v, srv/SrvC01.v. *)
 From Coq Require Import List NArith ZArith Bool Arith.
 From RecordUpdate Require Import RecordUpdate.
-From JV Require Import Bytes Msg SrvModel SrvLemmas SrvBasics SrvC07 SrvC01.
-From JV Require SrvNoCrash.
+From JV Require Import Bytes Msg SrvModel SrvLemmas SrvBasics SrvC07 SrvC01 SrvHist SrvC01b.
+From JV Require SrvNoCrash SrvC03.
 Import ListNotations.
 
 (* 1. tasks.responses: one element per call, in request order, with the call's id and body; an id-less member
@@ -134,3 +134,170 @@ Theorem c01_quiescent_complete : forall c s, reach c s -> quiescent s = true ->
   (forall u un, nth_error (units s) u = Some un -> u_st un <> UAtDeliver).
 Proof. exact SrvNoCrash.c01_quiescent_complete_nc. Qed.
 Print Assumptions c01_quiescent_complete.
+
+(* 7. units are the accepted inbound messages, first in first out.  [accepted s0 tr] is the ghost history of the
+      run: what every reader window appended to the work queue (batch flag of the record, its request and
+      notification members), in trace order; [alog] is the same with stops applied: a window that stops the server
+      ([stop_window]: running before, not after) keeps the entries already dispatched and rewrites the queued ones
+      with stop_queue (one message per retained notification).  jmem m = (fixID'ed id, method, params) of a
+      member, tmem t = the same of a task, unit_hist s = the dispatch units of s as (batch flag, members). *)
+Theorem c01_units_are_accepted_fifo : forall c tr s oss,
+  run (init_of c) tr = Some (s, oss) -> stop_free (init_of c) tr = true ->
+  unit_hist s ++ map qmem (inq s) = map qmem (accepted (init_of c) tr).
+Proof. exact SrvHist.units_are_accepted_fifo. Qed.
+Print Assumptions c01_units_are_accepted_fifo.
+
+Theorem c01_units_fifo_with_stops : forall c tr s oss, run (init_of c) tr = Some (s, oss) ->
+  exists done, alog (init_of c) tr [] = done ++ inq s /\ map qmem done = unit_hist s.
+Proof. exact SrvHist.hist_units_fifo. Qed.
+Print Assumptions c01_units_fifo_with_stops.
+
+Theorem c01_unit_hist_nth : forall s u un, nth_error (units s) u = Some un ->
+  nth_error (unit_hist s) u = Some (u_batch un, map tmem (unit_tasks s u)).
+Proof. exact SrvHist.unit_hist_nth. Qed.
+Print Assumptions c01_unit_hist_nth.
+
+(* one window: a stop rewrites the queue, any other window appends what its reader accepted *)
+Theorem c01_hist_window : forall c s l s' os, reach c s -> step s l = Some (s', os) ->
+  unit_hist s' ++ map qmem (inq s') =
+  unit_hist s ++ map qmem (if stop_window s s' then stop_queue (inq s) else inq s ++ acc_raw s l).
+Proof. exact SrvHist.hist_window. Qed.
+Print Assumptions c01_hist_window.
+
+Theorem c01_stop_queue_singletons : forall q,
+  Forall (fun bm => exists m, snd bm = [m] /\ keep_note m = true) (stop_queue q).
+Proof. exact SrvHist.stop_queue_singletons. Qed.
+Print Assumptions c01_stop_queue_singletons.
+
+Theorem c01_stop_window_label : forall c s l s' os, reach c s -> step s l = Some (s', os) -> stop_window s s' = true ->
+  (exists n, l = LRelStop n) \/ (l = LRelRead /\ exists e, rd s = RHold (FErr e)).
+Proof. exact SrvHist.stop_window_label. Qed.
+Print Assumptions c01_stop_window_label.
+
+(* 8. the message sent by the deliver window of unit u answers log entry number u: it is an array iff that inbound
+      message was an array (same flag b), and the replies that carry an id are those of the calls of that message,
+      in request order. *)
+Theorem c01_send_answers_accepted : forall c tr s oss u s' os ok b rs,
+  run (init_of c) tr = Some (s, oss) -> step s (LRelDeliver u) = Some (s', os) -> In (OSend ok b rs) os ->
+  exists ms, nth_error (alog (init_of c) tr []) u = Some (b, ms) /\
+    rs = responses (unit_tasks s u) /\ map tmem (unit_tasks s u) = map jmem ms /\
+    map r_id (filter has_id rs) = call_ids ms.
+Proof. exact SrvC01b.c01_send_answers_accepted. Qed.
+Print Assumptions c01_send_answers_accepted.
+
+Theorem c01_send_answers_accepted_nostop : forall c tr s oss u s' os ok b rs,
+  run (init_of c) tr = Some (s, oss) -> stop_free (init_of c) tr = true ->
+  step s (LRelDeliver u) = Some (s', os) -> In (OSend ok b rs) os ->
+  exists ms, nth_error (accepted (init_of c) tr) u = Some (b, ms) /\
+    rs = responses (unit_tasks s u) /\ map tmem (unit_tasks s u) = map jmem ms /\
+    map r_id (filter has_id rs) = call_ids ms.
+Proof. exact SrvC01b.c01_send_answers_accepted_nostop. Qed.
+Print Assumptions c01_send_answers_accepted_nostop.
+
+(* 9. delivered iff non-silent.  ufin s u = unit u is finished; is_deliver u l = the label is LRelDeliver u.
+      A finished unit with something to say was delivered exactly once on the trace, one with nothing to say never. *)
+Theorem c01_delivered_iff_nonsilent : forall c tr s oss u, run (init_of c) tr = Some (s, oss) -> ufin s u = true ->
+  (responses (unit_tasks s u) <> [] -> countb (is_deliver u) tr = 1) /\
+  (responses (unit_tasks s u) = [] -> countb (is_deliver u) tr = 0).
+Proof. exact SrvC01b.c01_delivered_iff_nonsilent. Qed.
+Print Assumptions c01_delivered_iff_nonsilent.
+
+(* the output history: unit_sends tr oss = the (unit, array flag, responses) of the OSend observations of the
+   LRelDeliver windows of the run, in trace order; delivered tr = the units of those windows.  They are exactly the
+   finished units with a non-empty reply, each once, with the unit's batch flag and the responses of its tasks
+   (every other OSend of a run is a reader's null-id error: c01_send_origin). *)
+Theorem c01_output_history : forall c tr s oss, run (init_of c) tr = Some (s, oss) ->
+  unit_sends tr oss = map (fun u => (u, ubatch s u, responses (unit_tasks s u))) (delivered tr) /\
+  NoDup (delivered tr) /\
+  (forall u, In u (delivered tr) <-> ufin s u = true /\ responses (unit_tasks s u) <> []).
+Proof. exact SrvC01b.c01_output_history. Qed.
+Print Assumptions c01_output_history.
+
+(* the reply of a complete unit never changes afterwards *)
+Theorem c01_reply_stable_run : forall c s tr s' oss u un, reach c s -> run s tr = Some (s', oss) ->
+  nth_error (units s) u = Some un -> all_finished s u = true ->
+  responses (unit_tasks s' u) = responses (unit_tasks s u).
+Proof. exact SrvC01b.c01_reply_stable_run. Qed.
+Print Assumptions c01_reply_stable_run.
+
+(* 10. the body of a call is the outcome of its one handler invocation.  Ghosts of the run: enter_count k s0 tr =
+       number of windows in which task k moves into its handler (OStart); gate_log k s0 tr = the outcomes the LGate
+       labels of the run gave to task k (an LGate p o goes to gate_idx s p = the first running task with params p).
+       lifet t ec gl = what the status of a task says about them. *)
+Theorem c01_task_life : forall c tr s oss k t, run (init_of c) tr = Some (s, oss) -> nth_error (tasks s) k = Some t ->
+  match t_st t with
+  | TSkip | TAtAcquire | TWaiting => enter_count k (init_of c) tr = 0 /\ gate_log k (init_of c) tr = []
+  | TRunning => enter_count k (init_of c) tr = 1 /\ gate_log k (init_of c) tr = [] /\ t_builtin t = false
+  | TAtHandled o =>
+      if t_builtin t then enter_count k (init_of c) tr = 0 /\ gate_log k (init_of c) tr = [] /\ o = ORes []
+      else enter_count k (init_of c) tr = 1 /\ gate_log k (init_of c) tr = [o]
+  | TDone bo =>
+      (enter_count k (init_of c) tr = 0 /\ gate_log k (init_of c) tr = [] /\
+       (bo = Some cancel_err \/ (t_builtin t = true /\ bo = body_of_outcome t (ORes [])))) \/
+      (enter_count k (init_of c) tr = 1 /\ t_builtin t = false /\
+       exists o, gate_log k (init_of c) tr = [o] /\ bo = body_of_outcome t o)
+  end.
+Proof. exact SrvC01b.c01_task_life. Qed.
+Print Assumptions c01_task_life.
+
+Theorem c01_body_is_unique_outcome : forall c tr s oss k t b, run (init_of c) tr = Some (s, oss) ->
+  nth_error (tasks s) k = Some t -> t_st t = TDone (Some b) -> t_builtin t = false -> b <> cancel_err ->
+  enter_count k (init_of c) tr = 1 /\ exists o, gate_log k (init_of c) tr = [o] /\ Some b = body_of_outcome t o.
+Proof. exact SrvC01b.c01_body_is_unique_outcome. Qed.
+Print Assumptions c01_body_is_unique_outcome.
+
+Theorem c01_cancel_err_body : forall c tr s oss k t, run (init_of c) tr = Some (s, oss) ->
+  nth_error (tasks s) k = Some t -> t_st t = TDone (Some cancel_err) -> t_builtin t = false ->
+  (enter_count k (init_of c) tr = 0 /\ gate_log k (init_of c) tr = []) \/
+  (enter_count k (init_of c) tr = 1 /\ exists o, gate_log k (init_of c) tr = [o] /\ body_of_outcome t o = Some cancel_err).
+Proof. exact SrvC01b.c01_cancel_err_body. Qed.
+Print Assumptions c01_cancel_err_body.
+
+Theorem c01_rejected_never_entered : forall c tr s oss k t e, run (init_of c) tr = Some (s, oss) ->
+  nth_error (tasks s) k = Some t -> t_pre t = Some e ->
+  enter_count k (init_of c) tr = 0 /\ gate_log k (init_of c) tr = [].
+Proof. exact SrvC01b.c01_rejected_never_entered. Qed.
+Print Assumptions c01_rejected_never_entered.
+
+Theorem c01_builtin_never_entered : forall c tr s oss k t, run (init_of c) tr = Some (s, oss) ->
+  nth_error (tasks s) k = Some t -> t_builtin t = true ->
+  enter_count k (init_of c) tr = 0 /\ gate_log k (init_of c) tr = [].
+Proof. exact SrvC01b.c01_builtin_never_entered. Qed.
+Print Assumptions c01_builtin_never_entered.
+
+(* notifications: a finished one (user handler) ran exactly once; at a quiescent point every runnable one of a
+   released message has been entered exactly once unless it still waits for a slot with all slots taken *)
+Theorem c01_notification_once : forall c tr s oss k t bo, run (init_of c) tr = Some (s, oss) ->
+  nth_error (tasks s) k = Some t -> is_note t = true -> t_builtin t = false -> t_st t = TDone bo ->
+  enter_count k (init_of c) tr = 1 /\ (exists o, gate_log k (init_of c) tr = [o]) /\ bo = None.
+Proof. exact SrvC01b.c01_notification_once. Qed.
+Print Assumptions c01_notification_once.
+
+Theorem c01_notification_once_at_quiescence : forall c tr s oss k t, run (init_of c) tr = Some (s, oss) ->
+  quiescent s = true -> nth_error (tasks s) k = Some t -> is_note t = true -> t_pre t = None -> t_builtin t = false ->
+  SrvC03.released s (t_unit t) = true ->
+  enter_count k (init_of c) tr = 1 \/
+  (t_st t = TWaiting /\ sem_free s = 0 /\ enter_count k (init_of c) tr = 0).
+Proof. exact SrvC01b.c01_notification_once_at_quiescence. Qed.
+Print Assumptions c01_notification_once_at_quiescence.
+
+(* 11. "no stop so far" can be read off the final state: the run has no stop window iff stopLocked never ran on a
+       running server (closes = 0) *)
+Theorem c01_stop_free_iff_closes : forall c tr s oss, run (init_of c) tr = Some (s, oss) ->
+  (stop_free (init_of c) tr = true <-> closes s = 0).
+Proof. exact SrvHist.stop_free_iff_closes. Qed.
+Print Assumptions c01_stop_free_iff_closes.
+
+(* 12. at rest everything has been answered: at a quiescent point of a running server (Concurrency >= 1) at which
+       no handler is still executing, the work queue is empty, every dispatch unit has finished, each unit with
+       something to say was delivered exactly once and each silent one never *)
+Theorem c01_all_answered_at_rest : forall c tr s oss, run (init_of c) tr = Some (s, oss) ->
+  quiescent s = true -> running s = true -> 0 < cf_K c ->
+  (forall k t, nth_error (tasks s) k = Some t -> t_st t <> TRunning) ->
+  inq s = [] /\
+  forall u, u < length (units s) ->
+    ufin s u = true /\
+    (responses (unit_tasks s u) <> [] -> countb (is_deliver u) tr = 1) /\
+    (responses (unit_tasks s u) = [] -> countb (is_deliver u) tr = 0).
+Proof. exact SrvC01b.c01_all_answered_at_rest. Qed.
+Print Assumptions c01_all_answered_at_rest.
